@@ -285,29 +285,30 @@ def _owner_fn(n):
     return p
 
 
-def _resource_sum(t, ops, roots, VRES, depth=0):
+def _resource_sum(t, ops, roots, VRES, seen=None):
     """Decompose a chip-resource total: the (operation, whose vertices)
     applications it went through and the values it started from."""
-    if depth > 40:
-        roots.add(("?",))
-        return
-    t = plain(t)
-    if t[0] == "phi":
-        for x in t[1:]:
-            _resource_sum(x, ops, roots, VRES, depth + 1)
-        return
-    if t == ("rec",):
-        return
-    if t[0] == "call" and t[1][0] == "global" and t[1][1] in (
-            "add_resources", "subtract_resources") and len(t[2]) == 2:
-        second = t[2][1]
-        if second[0] == "item" and second[1] == VRES:
-            ops.add((t[1][1], second[2]))
+    seen = seen if seen is not None else set()
+    if t[0] == "mu":
+        if t[1] in seen:
+            return
+        seen.add(t[1])
+    for x in alternatives(t):
+        if x == ("rec",):
+            continue
+        px = plain(x)
+        if px[0] == "call" and px[1][0] == "global" and px[1][1] in (
+                "add_resources", "subtract_resources") and len(px[2]) == 2:
+            second = px[2][1]
+            if second[0] == "item" and second[1] == VRES:
+                ops.add((px[1][1], second[2]))
+            else:
+                ops.add((px[1][1], second))
+            _resource_sum(x[2][0], ops, roots, VRES, seen)
+        elif x[0] in ("mu", "phi", "ite"):
+            _resource_sum(x, ops, roots, VRES, seen)
         else:
-            ops.add((t[1][1], second))
-        _resource_sum(t[2][0], ops, roots, VRES, depth + 1)
-        return
-    roots.add(t)
+            roots.add(px)
 
 
 def r2_kernel(program, rep):
